@@ -445,7 +445,8 @@ def opaque_with_axes(axes, dtype, name='opq', lib='torch'):
 def from_data(data, dtype=None):
     """tn.tensor(python data)"""
     if isinstance(data, STensor):
-        out = STensor(list(data.axes), dtype or data.dtype, data._val, ival=data.ival)
+        lossy = dtype is not None and _category(dtype) < _category(data.dtype) and _category(data.dtype) >= 2
+        out = STensor(list(data.axes), dtype or data.dtype, None if lossy else data._val, ival=None if lossy else data.ival)
         return derive(out, data, differentiable=False)
 
     def shape_of(d):
@@ -577,7 +578,8 @@ def to_dtype(t, dtype):
         out = STensor(list(t.axes), dtype, None, lib=t.lib, contiguous=t.contiguous)
         out.ghost['lossy_cast'] = True
         return derive(out, t)
-    out = STensor(list(t.axes), dtype, t._val, ival=t.ival, lib=t.lib, contiguous=t.contiguous)
+    trunc = t.dtype in FLOATS and dtype in INTS + ('bool',) and t.ival is None
+    out = STensor(list(t.axes), dtype, None if trunc else t._val, ival=t.ival, lib=t.lib, contiguous=t.contiguous)
     out.ghost = dict(t.ghost)
     return derive(out, t)
 
@@ -948,6 +950,8 @@ def getitem(t, index):
         index = (index,)
     n = t.ndim
     # expand ellipsis
+    if any(i is False for i in index):
+        raise OutOfSubset('python False as an index (selects nothing: a size-0 axis)')
     n_consuming = sum(1 for i in index if i is not None and i is not Ellipsis and i is not True)
     if n_consuming > n:
         raise PyRaise('IndexError', 'too many indices for tensor of dimension %d' % n, origin='torch')
@@ -968,9 +972,14 @@ def getitem(t, index):
     src_k = 0
     out_k = 0
     adv = None
+    n_true = sum(1 for i in full if i is True)
+    if n_true and any(isinstance(i, STensor) and i.ndim > 0 for i in full):
+        raise OutOfSubset('python bool index combined with an index tensor (they broadcast together)')
+    if n_true > 1:
+        raise OutOfSubset('several python bool indices (they broadcast into one axis)')
     for i in full:
         if i is None or i is True:
-            axes.append(Axis(1))       # torch: a python True index inserts a new axis of size 1 (like None)
+            axes.append(Axis(1))       # torch: a python True index inserts a new axis of size 1 (like None), but COPIES
             out_k += 1
             continue
         ax = t.axes[src_k]
@@ -1040,8 +1049,8 @@ def getitem(t, index):
     if adv is None and len(full) == n:
         from . import gauge
         gauge.on_getitem(t, out, full)
-    if adv is not None:
-        return derive(out, t)          # advanced indexing copies
+    if adv is not None or n_true:
+        return derive(out, t)          # advanced indexing (index tensors, python bools) copies
     return derive(out, t, view_of=t)
 
 
@@ -1070,8 +1079,24 @@ def _int_index(i, n):
     return z3.If(i < 0, i + nn, i)
 
 
+def _check_setitem_broadcast(vs, view_shape):
+    if len(vs) > len(view_shape):
+        for e in vs[:len(vs) - len(view_shape)]:
+            require(to_int(e) == 1 if is_sym(e) else e == 1, 'RuntimeError', 'shape mismatch in setitem')
+    off = len(view_shape) - len(vs)
+    for k, L in enumerate(view_shape):
+        if k - off < 0:
+            continue
+        s_ = vs[k - off]
+        if not known_eq(s_, L) and not decide_eq(s_, L):
+            require(to_int(s_) == 1 if is_sym(s_) else s_ == 1, 'RuntimeError', 'shape mismatch: value tensor cannot be broadcast to indexing result')
+
+
 def setitem(t, index, value):
     """t[index] = value  (in place)"""
+    if (isinstance(value, complex) or (isinstance(value, SymScalar) and value.kind == 'complex')) and _category(t.dtype) < 3:
+        # torch converts the python scalar first: a complex scalar cannot be stored into a real tensor (only complex TENSORS are cast)
+        raise PyRaise('RuntimeError', 'value cannot be converted to type %s without overflow' % t.dtype, origin='torch')
     ex().record_write(t, 'setitem')
     if not isinstance(index, tuple):
         index = (index,)
@@ -1100,7 +1125,12 @@ def setitem(t, index, value):
     vcat = _category(value.dtype) if isinstance(value, STensor) else \
         3 if isinstance(value, complex) or (isinstance(value, SymScalar) and value.kind == 'complex') else \
         2 if isinstance(value, float) or (isinstance(value, SymScalar) and value.kind == 'float') else 0
+    if vcat == 3 and _category(t.dtype) < 3 and not isinstance(value, STensor):
+        # a python complex scalar cannot be stored into a real tensor (only complex TENSORS are cast silently)
+        raise PyRaise('RuntimeError', 'value cannot be converted to type %s without overflow' % t.dtype, origin='torch')
     if vcat > _category(t.dtype) and vcat >= 2:
+        if isinstance(value, STensor):
+            _check_setitem_broadcast(value.shape, view_shape)
         # torch casts the value to the dtype of the destination (imaginary / fractional part silently discarded, a warning at most):
         # the written entries are not modelled -- the destination becomes opaque, its dtype stays what it was
         ex().notes.append(('lossy_cast', 'setitem casts a value of a higher dtype category into a %s tensor' % t.dtype))
@@ -1391,7 +1421,7 @@ def inplace(op, t, other):
     if t.requires_grad and t.is_leaf:
         raise PyRaise('RuntimeError', 'a leaf Variable that requires grad is being used in an in-place operation', origin='torch')
     ex().record_write(t, 'inplace_' + op)
-    old = STensor(list(t.axes), t.dtype, t._val, lib=t.lib)
+    old = STensor(list(t.axes), t.dtype, t._val, lib=t.lib, ival=t.ival)
     old.deps, old.requires_grad, old.is_leaf = t.deps, t.requires_grad, t.is_leaf
     if other is t:
         other = old
@@ -1405,6 +1435,11 @@ def inplace(op, t, other):
     if _category(r.dtype) > _category(t.dtype):
         raise PyRaise('RuntimeError', 'result type can\'t be cast to the desired output type', origin='torch')
     t._val = r._val
+    # the integer payload follows the write (aliases lose theirs, as in setitem)
+    t.ival = r.ival if r.dtype == t.dtype else None
+    for m in t.storage.members:
+        if m is not t:
+            m.ival = None
     t.deps = r.deps
     t.is_leaf = not t.deps
     t.ghost = {}
